@@ -22,6 +22,8 @@ pub fn bases() -> Vec<(&'static str, Vec<(String, String)>)> {
         ("nested_standalone", vec![("p::o".into(), format!("{x_local}{o_std}"))]),
         ("nested_module_import", vec![("p::a".into(), a_mod.into()), ("p::o".into(), format!("use p::a;\n{o_std}"))]),
         ("nested_type_import", vec![("a".into(), a_mod.into()), ("p::o".into(), format!("use a::X;\n{o_std}"))]),
+        // a nested module that defines, and only uses, a type named like itself (`p::o::o`)
+        ("nested_self_named", vec![("p::o".into(), "pub type o {\n    pub y: u32,\n}\npub type Holder {\n    pub p: *mut o,\n    pub q: u32,\n    pub r: u32,\n}\n".into())]),
         // a by-name import followed by a module import that supplies another name (`Y`)
         (
             "type_then_module_import",
@@ -61,6 +63,8 @@ fn unrelated() -> Vec<(&'static str, String)> {
         ("module_doc_and_empty", "//! an unrelated module\n".into()),
         ("big_aligned", "#[align(16)]\npub type X {\n    pub a: u128,\n}\n".into()),
         ("singleton_same_name", "#[singleton(0x5000)]\npub type O {\n    pub z: u32,\n}\n".into()),
+        // a type whose name is the observed module's last path segment (meaningful in its parent module `p`)
+        ("type_named_like_observed_module", "pub type o {\n    pub z: [u64; 2],\n}\npub type X {\n    pub z: u8,\n}\npub type O {\n    pub q: *const o,\n}\n".into()),
         ("names_supplied_by_imports", "pub type Y {\n    pub z: [u64; 4],\n}\npub type X {\n    pub z: [u64; 3],\n}\npub type Helper {\n    pub z: u8,\n}\n".into()),
     ]
 }
@@ -120,25 +124,30 @@ pub fn run(tier: &str, only: Option<&Value>) -> i32 {
     let bs = bases();
     let un = unrelated();
     let all = cases();
-    rep.rule = "E1 over pairs (S, S'): S one of ten base input sets around an observed module `o` (stand-alone; importing a module, a type, a nested module, transitively; using an extern type), S' = S plus one unrelated module (16 bodies chosen to collide by name with o's types, its generated vftable struct, its enum, its extern value, to import o, to derive from it, ...) at one of ten module paths (incl. child paths of o and of an imported module, and the paths of types that o imports by name or reaches through a module import), or plus two such modules, added before or after S; also S' = S plus an unreferenced type in an imported module. Pairs whose S' is rejected are skipped and counted. Oracle: o's output file byte-identical. distinct = distinct S' texts".into();
+    rep.rule = "E1 over pairs (S, S'): S one of eleven base input sets around an observed module `o` (stand-alone; importing a module, a type, a nested module, transitively; using an extern type), S' = S plus one unrelated module (17 bodies chosen to collide by name with o's types, its generated vftable struct, its enum, its extern value, to import o, to derive from it, ...) at one of ten module paths (incl. child paths of o and of an imported module, and the paths of types that o imports by name or reaches through a module import), or plus two such modules, added before or after S; also S' = S plus an unreferenced type in an imported module. Pairs whose S' is rejected are skipped and counted. Oracle: o's output file byte-identical. distinct = distinct S' texts".into();
     let only_i = only.map(|l| (l["index"].as_u64().unwrap_or(0) as usize, l["ps"].as_u64().unwrap_or(8) as usize));
     for ps in [4usize, 8] {
         if matches!(only_i, Some((_, p)) if p != ps) {
             continue;
         }
         let baseline: Vec<pipe::Verdict> = bs.iter().map(|(_, m)| pipe::run(&Input { modules: m.clone() }, ps)).collect();
+        // a base set that is rejected cannot be observed: the pairs built on it are skipped and the run is
+        // inconclusive (machinery status) unless another base set shows a violation
+        let mut dead_bases = vec![];
         for (i, b) in baseline.iter().enumerate() {
             if !b.is_ok() {
                 rep.machinery(format!("base set {} is rejected at ps {ps}: {}", bs[i].0, b.err_text()));
+                dead_bases.push(i);
             }
         }
-        if !rep.machinery_errors.is_empty() {
+        if dead_bases.len() == bs.len() {
             return rep.finish();
         }
         let idxs: Vec<usize> = match only_i {
             Some((i, _)) => vec![i],
             None => (0..all.len()).collect(),
         };
+        let idxs: Vec<usize> = idxs.into_iter().filter(|i| !dead_bases.contains(&all[*i].base)).collect();
         let outs = util::par_map(idxs.len(), |j, _| {
             let c = &all[idxs[j]];
             let input = build_input(&bs[c.base].1, c, &un);
@@ -179,6 +188,9 @@ pub fn run(tier: &str, only: Option<&Value>) -> i32 {
         // an unreferenced type added to an imported module
         if only_i.is_none() {
             for (bi, (name, mods)) in bs.iter().enumerate() {
+                if dead_bases.contains(&bi) {
+                    continue;
+                }
                 for (mi, (mpath, mtext)) in mods.iter().enumerate() {
                     if mpath == "o" || mpath == "p::o" {
                         continue;
